@@ -351,3 +351,41 @@ witness("C15", "json-default-with-nested-union", (
     {"type": "record", "name": "D", "fields": [{"name": "x", "type": "int"},
                                                 {"name": "m", "type": {"type": "map", "values": ["int", "string"]}, "default": {"k": 1}}]},
     [{"x": 1, "m": {"a": 2}}]))
+
+
+# ======================================================================
+# C12 — piecewise-parsed schema whose top level is not a record
+# ======================================================================
+@classifier("C12", "piecewise-nonrecord-toplevel-has-no-name-table")
+def _c12_nonrecord(fa, v, case, data, one_case, sh, seed):
+    """parse_schema attaches the shared named-schema table only to records
+    ('__named_schemas'); a piecewise-parsed array / map / union / reference has
+    nowhere to carry it, so every later operation re-parses the references
+    against an empty table -> UnknownType."""
+    info = v[2]
+    if info.get("form") != "piecewise" or not info.get("subset"):
+        return False
+    js = case["schema"]
+    if isinstance(js, dict) and js.get("type") == "record":
+        return False
+    if fa is None:
+        return True  # fresh-process re-read of a file that could not even be written
+    # neutralising edit: the same split below a record top level
+    from .props import c12
+    from .ref import schema as RS
+
+    wrapped = {"type": "record", "name": "VfTop", "fields": [{"name": "w", "type": js}]}
+    try:
+        node, _env = RS.build(wrapped)
+    except Exception:
+        return False
+    case2 = {"schema": wrapped, "node": node, "data": [{"w": d} for d in data]}
+    import random
+
+    vs = c12.one_case(sh.__class__("C12", {}), fa, random.Random(1), case2, [], info["subset"])
+    return not vs
+
+
+witness("C12", "piecewise-nonrecord-toplevel-has-no-name-table", (
+    {"type": "array", "items": {"type": "record", "name": "Child", "namespace": "x", "fields": [{"name": "a", "type": "int"}]}},
+    [[{"a": 1}]], ["x.Child"]))
